@@ -425,6 +425,32 @@ def load_known():
     return json.load(open(p))
 
 
+def surface_check():
+    """the properties quantify over 'every operation': a function added to the stateful types that is not under
+    contract makes every claim about histories meaningless -> INCONCLUSIVE (never an alarm)"""
+    exp = CONFIG.get("public_surface")
+    if not exp:
+        return
+    import purity as purity_mod
+    got = purity_mod.public_surface()
+    contracted = set(CONFIG.get("contracted_functions", []))
+    if contracted:
+        bad = purity_mod.uncontracted_state_builders(contracted)
+        if bad:
+            raise Inconclusive("function(s) outside the contracts build or patch the level/queue representation themselves: %s" % bad[:4])
+    new = sorted(k for k in got if k not in exp)
+    changed = sorted(k for k in got if k in exp and exp[k] != got[k])
+    if new and not changed and all(got[k] == "&self" for k in new):
+        # new `&self` methods are harmless for every property iff they are read-only: let the borrow checker decide
+        pr = purity_mod.run(WORK)
+        bad = set(v["name"] for v in pr["violations"])
+        if not pr["tool_errors"] and not any(k.split(" :: ")[-1] in [b.split("::")[-1] for b in bad] for k in new):
+            return
+    if new or changed:
+        raise Inconclusive("the library's surface changed: function(s) not under contract / not classified: %s%s" %
+                           (new[:6], (" receiver changed: %s" % changed[:4]) if changed else ""))
+
+
 def run_purity(pid, cfg):
     """returns (violations, number of read-only methods checked, coverage dict)"""
     if not cfg.get("purity"):
@@ -443,6 +469,12 @@ def run_purity(pid, cfg):
     viol = []
     os.makedirs(REPLAYS, exist_ok=True)
     seen_obl = set()
+    known_ro = set(CONFIG.get("readonly_methods", []))
+    unknown = sorted(set(v["name"] for v in pr["violations"] if known_ro and v["name"] not in known_ro))
+    if unknown:
+        # a `&self` method that mutates, but is neither a declared mutator nor one of the pinned read-only methods:
+        # probably a NEW operation.  It is not under contract, so nothing can be claimed either way.
+        raise Inconclusive("function(s) %s mutate the level through &self but are neither declared mutators nor known read-only methods (new operation not under contract?)" % unknown)
     for v in pr["violations"]:
         if v["obligation"] in seen_obl:
             continue
@@ -468,6 +500,7 @@ def check_property(pid, tier, seed):
     purity_viol, purity_n, purity_cov = [], 0, None
     try:
         ensure_replay_bin()
+        surface_check()
         purity_viol, purity_n, purity_cov = run_purity(pid, cfg)
         import concurrent.futures
         pool = concurrent.futures.ThreadPoolExecutor(max_workers=8)
@@ -625,6 +658,19 @@ def check_property(pid, tier, seed):
                 elif kr["status"] == "ERROR":
                     raise Inconclusive("kani harness %s did not run: %s" % (h, kr["tail"][-400:]))
             cov["kani_harnesses"] = kres
+            # cross-check of the contracts (and of the trusted shims) against the REAL library: the refutation finders are
+            # run although every obligation was discharged; a hit is a property violation that replays on the real code
+            # and, at the same time, evidence that something in the trusted base is wrong
+            w = find_witness(pid)
+            cov["cross_check_against_real_code"] = {"finders": "witness library, bounded search / fault enumeration / executable contract forms (see DESIGN 16)",
+                                                    "refutation_found": bool(w), "stats": _WITNESS_STATS.get(pid)}
+            if w:
+                rp = os.path.join(REPLAYS, "%s-crosscheck.json" % pid)
+                rj = dict(w[0]); rj.update({"property": pid, "label": "cross-check refutation although all obligations were discharged", "source": w[2]})
+                json.dump(rj, open(rp, "w"), indent=1)
+                rc2, lines2, err2 = run_replay(rp, timeout_s=60)
+                if rc2 == 1:
+                    violations.append({"label": "cross-check: %s" % w[1][0][:200], "replay": rp, "confirmed": True, "detail": w[1][:3]})
             # brittleness pass: half resource limit; reported, never a failure
             brittle = {}
             for r in results:
@@ -709,6 +755,7 @@ def check_property(pid, tier, seed):
 
 
 _WITNESS_CACHE = {}
+_WITNESS_STATS = {}
 
 
 def find_witness(pid):
@@ -738,6 +785,7 @@ def find_witness(pid):
         sp = os.path.join(REPLAYS, "search-%s.json" % pid)
         json.dump({"kind": "package_faults"}, open(sp, "w"))
         rc, lines, err = run_replay(sp, timeout_s=60)
+        _WITNESS_STATS[pid] = (err or "").strip().split("\n")[-1][:200]
         hits = [l for l in lines if l.startswith("REPLAY-VIOLATION") and "property=C09 " in l]
         if rc == 1 and hits:
             res = ({"kind": "package_faults"}, hits, "fault enumeration on the serialized package (every single-byte fault, truncation, checksum-prefix pairs)")
@@ -758,6 +806,7 @@ def find_witness(pid):
             q.update({"target": "queue", "depth": 7})
         json.dump(q, open(sp, "w"))
         rc, lines, err = run_replay(sp, timeout_s=40)
+        _WITNESS_STATS[pid] = (err or "").strip().split("\n")[-1][:200]
         found = [l for l in lines if l.startswith("REPLAY-FOUND ")]
         hits = [l for l in lines if l.startswith("REPLAY-VIOLATION") and ("property=%s " % pid) in l]
         if rc == 1 and found and hits:
@@ -835,8 +884,18 @@ def main(argv):
             rs, meta = build_unit(u)
             cfg["units"][u]["rewrite_counts"] = meta["rewrite_counts"]
             cfg["units"][u]["assumption_counts"] = scan_assumptions(rs)
+        import purity as purity_mod
+        cfg["public_surface"] = purity_mod.public_surface()
+        contracted = set()
+        for u in cfg["units"]:
+            rs, meta = build_unit(u)
+            for fn in meta["functions"]:
+                contracted.add("%s :: %s" % (fn["impl"], fn["name"]))
+        cfg["contracted_functions"] = sorted(contracted)
+        pr = purity_mod.run(WORK)
+        cfg["readonly_methods"] = pr["readonly_methods_checked"]
         json.dump(cfg, open(cfgp, "w"), indent=1)
-        print("pinned %d units" % len(cfg["units"]))
+        print("pinned %d units, %d surface functions, %d read-only methods" % (len(cfg["units"]), len(cfg["public_surface"]), len(cfg["readonly_methods"])))
         return 0
     if len(argv) >= 3 and argv[1] == "--replay":
         try:
